@@ -237,3 +237,17 @@ Example C17_selection_state_example :
   snd (select_st (firstn 20 (enc doc)) [PRoot; PBracketWild] MAll ([7; 7], [2])) = Panic.
 Proof. exact select_st_example. Qed.
 Print Assumptions C17_selection_state_example.
+
+(* ---- LazyValue::write_to_vec (lazy_value.rs; model ValueApi.v): both variants only append, and append what to_vec returns *)
+From JB Require ValueApi ValueApiProofs.
+Theorem C17_lazy_write_to_vec_appends : forall l, (forall v, l = Dispatch.LValue v -> wf_size v = true) ->
+  forall buf, ValueApi.lazy_write_to_vec buf l = buf ++ Dispatch.lazy_to_vec l.
+Proof. exact ValueApiProofs.lazy_write_to_vec_appends. Qed.
+Print Assumptions C17_lazy_write_to_vec_appends.
+
+(* ... and for EVERY value, without the size bound: the Encoder's reserve / append / back-patch never touches the caller's bytes *)
+Theorem C17_write_to_vec_only_appends_any_value :
+  (forall v buf, write_to_vec buf v = buf ++ write_to_vec [] v) /\
+  (forall l buf, ValueApi.lazy_write_to_vec buf l = buf ++ ValueApi.lazy_write_to_vec [] l).
+Proof. split; [exact ValueApiProofs.write_to_vec_only_appends|exact ValueApiProofs.lazy_write_to_vec_only_appends]. Qed.
+Print Assumptions C17_write_to_vec_only_appends_any_value.
